@@ -143,7 +143,9 @@ def tlc(module, cfg=None, outname=None, workdir=None, workers=1, env=None, timeo
     # invariants on the main thread - the recursive evaluators need a deep stack there too
     cmd = ["java", "-Xss1g", "-Xmx" + xmx, "-XX:+UseParallelGC", "-Dtlc2.tool.queue.IStateQueue=StateDeque",
            "-cp", TLA_JAR + ":/opt/veriftools/tla/CommunityModules-deps.jar", "tlc2.TLC"]
-    cmd += ["-workers", str(workers), "-metadir", meta, "-cleanup", "-noGenerateSpecTE",
+    # -checkpoint 0: no periodic checkpoints (the depth-first StateDeque cannot be checkpointed: a run that is
+    # still going after 30 minutes would otherwise end in an UnsupportedOperationException)
+    cmd += ["-workers", str(workers), "-metadir", meta, "-cleanup", "-noGenerateSpecTE", "-checkpoint", "0",
             "-config", cfg]
     if simulate:
         cmd += ["-simulate", simulate]
